@@ -84,6 +84,15 @@ func (s *keystore) loadSize()
   modifies s.size
   ensures [internal-size-key-ephemeral] $deleted
   ghost at call(Delete): $deleted = ($arg1 == sizeKey)
+  # the full count runs on a datastore that no longer holds the size entry
+  # (otherwise the metadata key is counted as a stored key), and its result is
+  # what Size reports
+  ghostvar $cnt int = 0
+  ghostvar $cerr error = nil
+  ghostvar $counted bool = false
+  ensures [counted-size-is-used] imp($counted && $cerr == nil, s.size == $cnt)
+  ghost at before call(refreshSize): assert($deleted && $arg1 == s.ds)
+  ghost at call(refreshSize): $cnt = $ret0; $cerr = $ret1; $counted = true
 
 func refreshSize(ctx context.Context, d ds.Datastore) (size int, err error)
   props C20
